@@ -40,6 +40,10 @@ type Case struct {
 	Shape      string   `json:"shape"`
 	Alias      []bool   `json:"alias,omitempty"` // alias nodes: exactly one dependency, resolved without the pool
 	GoMaxProcs int      `json:"gomaxprocs,omitempty"`
+	// NoPool: tasks run inline behind a plain semaphore instead of grog's TaskWorkerPool (whose shutdown closes a
+	// channel under concurrent sends on purpose, which the race detector reports): lets the race detector look at
+	// the walker alone under fail-fast and cancellation.
+	NoPool bool `json:"no_pool,omitempty"`
 }
 
 type Event struct {
@@ -152,6 +156,7 @@ func body(c Case, virtual bool) Outcome {
 			selectedCount++
 		}
 	}
+	sem := make(chan struct{}, max(1, c.Workers))
 	pool := worker.NewTaskWorkerPool[dag.CacheResult](console.GetLogger(ctx), c.Workers, func(tea.Msg) {}, selectedCount)
 	pool.StartWorkers(ctx)
 	defer pool.Shutdown()
@@ -164,7 +169,19 @@ func body(c Case, virtual bool) Outcome {
 			log("E", i)
 			return dag.CacheHit, nil
 		}
-		return pool.Run(func(update worker.StatusFunc) (dag.CacheResult, error) {
+		runTask := pool.Run
+		if c.NoPool {
+			runTask = func(task worker.TaskFunc[dag.CacheResult]) (dag.CacheResult, error) {
+				select {
+				case sem <- struct{}{}:
+				case <-ctx.Done():
+					return dag.CacheMiss, ctx.Err()
+				}
+				defer func() { <-sem }()
+				return task(func(worker.StatusUpdate) {})
+			}
+		}
+		return runTask(func(update worker.StatusFunc) (dag.CacheResult, error) {
 			// like exec.CommandContext: a command is not started on a cancelled context
 			if ctx.Err() != nil {
 				return dag.CacheMiss, ctx.Err()
